@@ -34,6 +34,8 @@ pub struct Params {
     /// ErrorKind::Interrupted once. The session may end because of it; whatever reached the transport must be whole
     /// frames, each task's in its order, with at most ONE torn frame — at the very end
     pub interrupt_call: Option<usize>,
+    /// with `interrupt_call`: the call accepts 0 bytes (Ok(0)) instead of returning Interrupted
+    pub zero_instead: bool,
 }
 
 #[derive(Clone, Debug, PartialEq)]
@@ -54,7 +56,7 @@ pub fn make(p: Params) -> crate::ctl::ScenarioFn {
                 if p.stall_s > 0 { PipeCfg::new("c2s").menus(false, p.write_menu).capacity(10) } else if p.interrupt_call.is_some() { PipeCfg::new("c2s").menus(false, p.write_menu).capacity(16) } else { PipeCfg::new("c2s").menus(false, p.write_menu) },
             );
             if let Some(k) = p.interrupt_call {
-                link.peer.out.set_write_interrupt_call(k);
+                if p.zero_instead { link.peer.out.set_write_zero_call(k) } else { link.peer.out.set_write_interrupt_call(k) }
             }
             let wire = link.peer.out.clone();
             let sess = match start_client_session(
@@ -354,7 +356,7 @@ fn short(v: &[Sub]) -> Vec<String> {
 
 pub fn params_json(p: &Params) -> serde_json::Value {
     json!({"scheme": p.scheme_name, "openers": p.openers, "forwarder_of": if p.forwarder_of==usize::MAX {-1} else {p.forwarder_of as i64},
-           "heartbeat_writer": p.heartbeat_writer, "pre_packets": p.pre_packets, "write_menu": p.write_menu, "chunks": p.chunks, "big_first_chunk": p.big_first_chunk, "stall_s": p.stall_s, "interrupted_write_call": p.interrupt_call})
+           "heartbeat_writer": p.heartbeat_writer, "pre_packets": p.pre_packets, "write_menu": p.write_menu, "chunks": p.chunks, "big_first_chunk": p.big_first_chunk, "stall_s": p.stall_s, "interrupted_write_call": p.interrupt_call, "ok0_instead_of_interrupted": p.zero_instead})
 }
 
 pub fn all_params(tier: Tier) -> Vec<(Params, usize)> {
@@ -387,13 +389,14 @@ pub fn all_params(tier: Tier) -> Vec<(Params, usize)> {
                         big_first_chunk: false,
                         stall_s: 0,
                         interrupt_call: None,
+                        zero_instead: false,
                     },
                     if tier.is_thorough() { bt } else { bq },
                 ));
                 // the same race with a first chunk that needs several frames (direct writers and the forwarding task)
                 if !hb && !wm && pre == 0 && scheme_name != "tiny" {
                     v.push((
-                        Params { scheme, scheme_name, openers: 2, forwarder_of: fw, heartbeat_writer: false, pre_packets: 0, write_menu: false, chunks: 2, big_first_chunk: true, stall_s: 0, interrupt_call: None },
+                        Params { scheme, scheme_name, openers: 2, forwarder_of: fw, heartbeat_writer: false, pre_packets: 0, write_menu: false, chunks: 2, big_first_chunk: true, stall_s: 0, interrupt_call: None, zero_instead: false },
                         if tier.is_thorough() { 2 } else { 1 },
                     ));
                 }
@@ -515,7 +518,7 @@ pub fn stall_params(tier: Tier) -> Vec<(Params, usize)> {
                     if !tier.is_thorough() && scheme_name == "default" && stall_s != 61 {
                         continue;
                     }
-                    v.push((Params { scheme, scheme_name, openers: 2, forwarder_of: fw, heartbeat_writer: hb, pre_packets: 0, write_menu: false, chunks: 2, big_first_chunk: false, stall_s, interrupt_call: None }, if tier.is_thorough() { 1 } else { 0 }));
+                    v.push((Params { scheme, scheme_name, openers: 2, forwarder_of: fw, heartbeat_writer: hb, pre_packets: 0, write_menu: false, chunks: 2, big_first_chunk: false, stall_s, interrupt_call: None, zero_instead: false }, if tier.is_thorough() { 1 } else { 0 }));
                 }
             }
         }
@@ -529,7 +532,9 @@ pub fn interrupt_params(tier: Tier) -> Vec<(Params, usize)> {
     for (scheme, scheme_name) in [(STOP0, "stop0"), (TINY, "tiny")] {
         for fw in [usize::MAX, 1] {
             for k in 0..(if tier.is_thorough() { 24 } else { 14 }) {
-                v.push((Params { scheme, scheme_name, openers: 2, forwarder_of: fw, heartbeat_writer: true, pre_packets: 0, write_menu: false, chunks: 2, big_first_chunk: false, stall_s: 0, interrupt_call: Some(k) }, if tier.is_thorough() { 1 } else { 0 }));
+                for zero in [false, true] {
+                    v.push((Params { scheme, scheme_name, openers: 2, forwarder_of: fw, heartbeat_writer: true, pre_packets: 0, write_menu: false, chunks: 2, big_first_chunk: false, stall_s: 0, interrupt_call: Some(k), zero_instead: zero }, if tier.is_thorough() { 1 } else { 0 }));
+                }
             }
         }
     }
